@@ -110,7 +110,7 @@ macro_rules! hash_body {
         a.hash(&mut ha);
         b.hash(&mut hb);
         assert!(!ha.overflow && !hb.overflow, "HARNESS: recording hasher overflowed");
-        assert!(ha.n > 0, "C10: nothing was hashed");
+        w!(ha.n > 0, "something was fed to the hasher");
         assert!(ha.same(&hb), "C10: equal values feed different data to the Hasher");
     };
 }
@@ -161,3 +161,29 @@ h_hash_heap!(c10_q_hash_bvdyn1_bvfix, 4, bvdyn1(anylen(64)), bvfix(anylen(128)))
 h_hash_heap!(c10_q_hash_bvdyn2_bvdyn3, 5, bvdyn2(anylen(128)), bvdyn3(anylen(192)));
 h_hash_heap!(c10_t_hash_bvdyn3_bvdyn1, 5, bvdyn3(anylen(192)), bvdyn1(anylen(64)));
 h_hash!(c10_t_hash_bvdyn2_bvdyn2, 4, bvdyn2(anylen(128)), bvdyn2(anylen(128)));
+
+
+// ---- the storage-less empty vector (zero allocated words) against other zeros -------------------
+/// `Bvd::zeros(0)` / `with_capacity(0)` / `copy_range(k..k)` own no storage word at all; every
+/// all-zero vector of any length and capacity equals it and must hash identically.
+macro_rules! h_hash_nostorage {
+    ($name:ident, $unw:literal, $a:expr, $b:expr) => {
+        harness!($name, $unw, {
+            let (a, ra) = $a;
+            let (b, rb) = $b;
+            nd::assume(ra.v.is_zero() && rb.v.is_zero());
+            w!(rb.len > 0, "non-empty all-zero vector against the storage-less empty vector");
+            w!(rb.len == 0, "two empty vectors with different allocations");
+            let mut ha = Rec::new();
+            let mut hb = Rec::new();
+            a.hash(&mut ha);
+            b.hash(&mut hb);
+            assert!(!ha.overflow && !hb.overflow, "HARNESS: recording hasher overflowed");
+            assert!(ha.same(&hb), "C10: equal (zero) values feed different data to the Hasher");
+        });
+    };
+}
+h_hash_nostorage!(c10_q_hash_bvd0_bvd1, 4, bvd0(0), bvd1(anylen(64)));
+h_hash_nostorage!(c10_q_hash_bvd0_bvd3, 5, bvd0(0), bvd3(anylen(192)));
+h_hash_nostorage!(c10_q_hash_bvdyn0_bvfix, 4, { let (b, r) = bvd0(0); (Bv::Dynamic(b), r) }, bvfix(anylen(128)));
+h_hash_nostorage!(c10_q_hash_bvdyn0_bvdyn2, 4, { let (b, r) = bvd0(0); (Bv::Dynamic(b), r) }, bvdyn2(anylen(128)));
